@@ -13,6 +13,10 @@ PLANS = {
             'thorough': [E('C10', 'plain', 200000, 3600), E('C10', 'asan', 5000, 900, seed_offset=500000)]},
     'C03': {'quick': [E('C03', 'plain', 1400, 100), E('C03', 'asan', 120, 45, seed_offset=500000, run_wall_s=120)],
             'thorough': [E('C03', 'plain', 60000, 3600), E('C03', 'asan', 3000, 1200, seed_offset=500000)]},
+    'C18': {'quick': [E('C18', 'plain', 4000, 40), E('C18', 'asan', 500, 40, seed_offset=500000), E('C18S', 'plain', 400, 50, seed_offset=700000),
+                      E('C18S', 'asan', 60, 30, seed_offset=800000, run_wall_s=120)],
+            'thorough': [E('C18', 'plain', 100000, 1200, tier=1), E('C18', 'asan', 20000, 1200, seed_offset=500000, tier=1),
+                         E('C18S', 'plain', 20000, 1800, seed_offset=700000), E('C18S', 'asan', 2000, 900, seed_offset=800000, run_wall_s=300)]},
     # C07: monitor inside searches (plain + asan) and the same seeds in every SIMD build variant (hashes must agree)
     'C07': {'quick': [E('C07', 'plain', 480, 60, compare_group='simd'), E('C07', 'plain-ssse3', 480, 60, compare_group='simd'),
                       E('C07', 'plain-avx2', 480, 60, compare_group='simd'), E('C07', 'plain-avx512', 480, 60, compare_group='simd'),
